@@ -30,10 +30,12 @@ ReqMethods == {"initialize", "shutdown", "textDocument/hover", "textDocument/com
 PosKinds == {"inrange", "pastEnd", "negative"}
 ParamKinds == {"ok", "wrongShape", "missing"}
 
-VARIABLES docs, diag, phase, nextId, out, hist
-vars == <<docs, diag, phase, nextId, out, hist>>
+VARIABLES docs, diag, phase, nextId, out, hist,
+          pub       \* per document: the last validation result published (survives close; it is not part of what a
+                    \* client may rely on, but it is state an implementation may keep, so the tour distinguishes it)
+vars == <<docs, diag, phase, nextId, out, hist, pub>>
 lastKind == IF hist = <<>> THEN "none" ELSE hist[Len(hist)].m
-view == IF PairView THEN <<docs, diag, phase, lastKind>> ELSE <<docs, diag, phase>>
+view == IF PairView THEN <<docs, diag, phase, pub, lastKind>> ELSE <<docs, diag, phase, pub>>
 
 BadLines(ls) == SelectSeq([i \in 1..Len(ls) |-> IF ls[i] = "B" THEN i - 1 ELSE -1], LAMBDA x : x >= 0)
 DiagOf(d) == [have |-> TRUE, ver |-> d.ver, lines |-> BadLines(d.lines)]
@@ -45,6 +47,7 @@ Log(step) == /\ hist' = Append(hist, step)
 
 Init == /\ docs = [u \in URIs |-> Closed] /\ diag = [u \in URIs |-> NoDiag]
         /\ phase = "running" /\ nextId = 1 /\ out = NoOut /\ hist = <<>>
+        /\ pub = [u \in URIs |-> [ver |-> -1, lines |-> <<>>]]
 
 Running == phase = "running"
 
@@ -55,7 +58,7 @@ Request(m, u, pk, prm) ==
     /\ Running
     /\ out' = [NoOut EXCEPT !.must = <<nextId>>]
     /\ nextId' = nextId + 1
-    /\ UNCHANGED <<docs, diag, phase>>
+    /\ UNCHANGED <<docs, diag, phase, pub>>
     /\ Log([m |-> m, kind |-> "request", id |-> nextId, uri |-> u, pos |-> pk, params |-> prm,
             out |-> out', docs |-> docs, diag |-> diag])
 
@@ -65,46 +68,70 @@ Open(u, ls, v) ==
     /\ docs' = [docs EXCEPT ![u] = [open |-> TRUE, known |-> TRUE, lines |-> ls, ver |-> v]]
     /\ diag' = [diag EXCEPT ![u] = DiagOf(docs'[u])]
     /\ out' = [NoOut EXCEPT !.diag = <<[uri |-> u, ver |-> v, lines |-> BadLines(ls), strictver |-> TRUE]>>]
+    /\ pub' = [pub EXCEPT ![u] = [ver |-> v, lines |-> BadLines(ls)]]
     /\ UNCHANGED <<phase, nextId>>
     /\ Log([m |-> "didOpen", kind |-> "notification", uri |-> u, lines |-> ls, ver |-> v,
             out |-> out', docs |-> docs', diag |-> diag'])
 
-\* a change replaces the text (full sync) or edits whole lines (incremental sync)
+\* a change notification carries a list of changes applied left to right; each replaces the text (full
+\* sync) or edits whole lines through an ordinary range (incremental sync)
 EditKinds == {"full", "replaceLine", "insertLine", "deleteLine", "appendPastEnd", "negativeRange", "invertedRange"}
+LineEdits == {"replaceLine", "insertLine", "deleteLine"}
 
-Edited(ls, ek, k, s) ==
-    CASE ek = "replaceLine"   -> [ls EXCEPT ![k] = s]
-      [] ek = "insertLine"    -> SubSeq(ls, 1, k - 1) \o <<s>> \o SubSeq(ls, k, Len(ls))
-      [] ek = "deleteLine"    -> SubSeq(ls, 1, k - 1) \o SubSeq(ls, k + 1, Len(ls))
-      [] ek = "appendPastEnd" -> Append(ls, s)        \* range far beyond the last line clamps to the end
+Edited(ls, e) ==
+    CASE e.ek = "full"          -> e.full
+      [] e.ek = "replaceLine"   -> [ls EXCEPT ![e.k] = e.s]
+      [] e.ek = "insertLine"    -> SubSeq(ls, 1, e.k - 1) \o <<e.s>> \o SubSeq(ls, e.k, Len(ls))
+      [] e.ek = "deleteLine"    -> SubSeq(ls, 1, e.k - 1) \o SubSeq(ls, e.k + 1, Len(ls))
+      [] e.ek = "appendPastEnd" -> Append(ls, e.s)        \* range far beyond the last line clamps to the end
       [] OTHER -> ls
 
-Change(u, ek, k, s, full) ==
+ValidEdit(ls, e) ==
+    CASE e.ek \in {"replaceLine", "deleteLine"} -> e.k \in 1..Len(ls) /\ (e.ek = "deleteLine" => Len(ls) > 1)
+      [] e.ek = "insertLine"    -> e.k \in 1..Len(ls) /\ Len(ls) < MaxLines
+      [] e.ek = "appendPastEnd" -> e.k = 1 /\ Len(ls) < MaxLines
+      [] OTHER -> e.k = 1
+
+Weird(e) == e.ek \in {"negativeRange", "invertedRange"}
+
+\* es: a sequence of one or two edits
+Change(u, es) ==
     /\ Running
     /\ LET d == docs[u]
            v == IF d.ver < MaxVer THEN d.ver + 1 ELSE d.ver
+           anyWeird == \E i \in DOMAIN es : Weird(es[i])
+           l1 == Edited(d.lines, es[1])
+           final == IF Len(es) = 1 THEN l1 ELSE Edited(l1, es[2])
        IN IF ~d.open
             THEN \* a change for a document that is not open is ignored
-                 /\ UNCHANGED <<docs, diag, phase, nextId>> /\ out' = NoOut
+                 /\ UNCHANGED <<docs, diag, phase, nextId, pub>> /\ out' = NoOut
             ELSE /\ docs' = [docs EXCEPT ![u] =
-                       CASE ek = "full" -> [d EXCEPT !.lines = full, !.known = TRUE, !.ver = v]
-                         [] ek \in {"negativeRange", "invertedRange"} -> [d EXCEPT !.known = FALSE, !.ver = v]
-                         [] OTHER -> IF d.known THEN [d EXCEPT !.lines = Edited(d.lines, ek, k, s), !.ver = v]
-                                     ELSE [d EXCEPT !.ver = v]]
+                       IF anyWeird THEN [d EXCEPT !.known = FALSE, !.ver = v]
+                       ELSE IF d.known \/ es[Len(es)].ek = "full" \/ es[1].ek = "full"
+                            THEN [d EXCEPT !.lines = final, !.known = TRUE, !.ver = v]
+                            ELSE [d EXCEPT !.ver = v]]
                  /\ diag' = [diag EXCEPT ![u] = IF docs'[u].known THEN DiagOf(docs'[u]) ELSE NoDiag]
                  /\ out' = IF docs'[u].known
                            THEN [NoOut EXCEPT !.diag = <<[uri |-> u, ver |-> v, lines |-> BadLines(docs'[u].lines), strictver |-> TRUE]>>]
                            ELSE NoOut
+                 /\ pub' = IF docs'[u].known THEN [pub EXCEPT ![u] = [ver |-> v, lines |-> BadLines(docs'[u].lines)]] ELSE pub
                  /\ UNCHANGED <<phase, nextId>>
-    /\ Log([m |-> "didChange", kind |-> "notification", uri |-> u, edit |-> ek, k |-> k, s |-> s, full |-> full,
+    /\ Log([m |-> "didChange", kind |-> "notification", uri |-> u, edits |-> es,
             ver |-> (IF docs[u].ver < MaxVer THEN docs[u].ver + 1 ELSE docs[u].ver),
             out |-> out', docs |-> docs', diag |-> diag'])
 
-ValidEdit(d, ek, k) ==
-    CASE ek \in {"replaceLine", "deleteLine"} -> d.known /\ k \in 1..Len(d.lines) /\ (ek = "deleteLine" => Len(d.lines) > 1)
-      [] ek = "insertLine"    -> d.known /\ k \in 1..Len(d.lines) /\ Len(d.lines) < MaxLines
-      [] ek = "appendPastEnd" -> d.known /\ k = 1 /\ Len(d.lines) < MaxLines
-      [] OTHER -> k = 1
+Edits == [ek : EditKinds, k : 1..MaxLines, s : Stmt, full : LineSeqs]
+Canon(e) == /\ (e.ek # "full" => e.full = <<"G">>) /\ (e.ek = "full" => e.s = "G" /\ e.k = 1)
+            /\ (e.ek \in {"deleteLine", "negativeRange", "invertedRange"} => e.s = "G")
+
+\* which edit lists are offered to a document: one edit of any kind, or two line edits / full+line edit where the
+\* second is valid on the result of the first
+EditLists(d) ==
+    {<<e>> : e \in {x \in Edits : Canon(x) /\ (Weird(x) \/ x.ek = "full" \/ (d.known /\ ValidEdit(d.lines, x)))}}
+    \cup {<<e1, e2>> : e1 \in {x \in Edits : Canon(x) /\ (x.ek \in LineEdits \/ x.ek = "full") /\ (x.ek = "full" \/ (d.known /\ ValidEdit(d.lines, x)))},
+                       e2 \in {x \in Edits : Canon(x) /\ x.ek \in LineEdits}}
+
+ValidList(d, es) == IF Len(es) = 1 THEN TRUE ELSE ValidEdit(Edited(d.lines, es[1]), es[2])
 
 Close(u) ==
     /\ Running
@@ -112,13 +139,14 @@ Close(u) ==
     /\ diag' = [diag EXCEPT ![u] = [have |-> TRUE, ver |-> 0, lines |-> <<>>]]
     \* closing clears the diagnostics (also for a document that was not open: harmless)
     /\ out' = [NoOut EXCEPT !.diag = <<[uri |-> u, ver |-> 0, lines |-> <<>>, strictver |-> FALSE]>>]
-    /\ UNCHANGED <<phase, nextId>>
+    /\ UNCHANGED <<phase, nextId, pub>>
     /\ Log([m |-> "didClose", kind |-> "notification", uri |-> u, out |-> out', docs |-> docs', diag |-> diag'])
 
 \* save re-validates the current text (the notification may or may not carry it)
 Save(u, withText) ==
     /\ Running
     /\ UNCHANGED <<docs, phase, nextId>>
+    /\ pub' = IF docs[u].open /\ docs[u].known THEN [pub EXCEPT ![u] = [ver |-> 0, lines |-> BadLines(docs[u].lines)]] ELSE pub
     /\ LET d == docs[u] IN
        IF d.open /\ d.known
          THEN /\ diag' = [diag EXCEPT ![u] = DiagOf(d)]
@@ -133,7 +161,7 @@ Inert(m, prm) ==
                          "textDocument/didClose", "textDocument/didSave"}
     /\ (m \in {"initialized", "$/unknownNotification"} => prm = "ok")
     /\ (m \notin {"initialized", "$/unknownNotification"} => prm # "ok")     \* malformed params: ignored
-    /\ out' = NoOut /\ UNCHANGED <<docs, diag, phase, nextId>>
+    /\ out' = NoOut /\ UNCHANGED <<docs, diag, phase, nextId, pub>>
     /\ Log([m |-> m, kind |-> "inert", params |-> prm, out |-> out', docs |-> docs, diag |-> diag])
 
 \* frames that are not requests: the server must survive; an id that can be extracted may be answered once
@@ -145,10 +173,10 @@ Malformed(f) ==
               ELSE IF f = "headerExtraField" THEN [NoOut EXCEPT !.must = <<nextId>>]   \* a valid request with one more header
               ELSE NoOut
     /\ nextId' = nextId + 1
-    /\ UNCHANGED <<docs, diag, phase>>
+    /\ UNCHANGED <<docs, diag, phase, pub>>
     /\ Log([m |-> f, kind |-> "malformed", id |-> nextId, out |-> out', docs |-> docs, diag |-> diag])
 
-Exit == /\ Running /\ phase' = "exited" /\ out' = NoOut /\ UNCHANGED <<docs, diag, nextId>>
+Exit == /\ Running /\ phase' = "exited" /\ out' = NoOut /\ UNCHANGED <<docs, diag, nextId, pub>>
         /\ Log([m |-> "exit", kind |-> "notification", out |-> out', docs |-> docs, diag |-> diag])
 
 Next == \/ \E m \in ReqMethods, u \in URIs, pk \in PosKinds, prm \in ParamKinds :
@@ -156,11 +184,7 @@ Next == \/ \E m \in ReqMethods, u \in URIs, pk \in PosKinds, prm \in ParamKinds 
               /\ (prm # "ok" => pk = "inrange")
               /\ Request(m, u, pk, prm)
         \/ \E u \in URIs, ls \in LineSeqs, v \in 1..2 : Open(u, ls, v)
-        \/ \E u \in URIs, ek \in EditKinds, k \in 1..MaxLines, s \in Stmt, full \in LineSeqs :
-              /\ ValidEdit(docs[u], ek, k)
-              /\ (ek # "full" => full = <<"G">>) /\ (ek = "full" => s = "G")
-              /\ (ek \in {"deleteLine", "full", "negativeRange", "invertedRange"} => s = "G")
-              /\ Change(u, ek, k, s, full)
+        \/ \E u \in URIs : \E es \in EditLists(docs[u]) : ValidList(docs[u], es) /\ Change(u, es)
         \/ \E u \in URIs : Close(u) \/ Save(u, TRUE) \/ Save(u, FALSE)
         \/ \E m \in {"initialized", "$/unknownNotification", "textDocument/didOpen", "textDocument/didChange",
                      "textDocument/didClose", "textDocument/didSave"}, prm \in ParamKinds : Inert(m, prm)
